@@ -4,6 +4,15 @@ theories/Base/Prelude.vos theories/Base/Prelude.vok theories/Base/Prelude.requir
 theories/Base/Bytes.vo theories/Base/Bytes.glob theories/Base/Bytes.v.beautified theories/Base/Bytes.required_vo: theories/Base/Bytes.v theories/Base/Prelude.vo
 theories/Base/Bytes.vio: theories/Base/Bytes.v theories/Base/Prelude.vio
 theories/Base/Bytes.vos theories/Base/Bytes.vok theories/Base/Bytes.required_vos: theories/Base/Bytes.v theories/Base/Prelude.vos
+theories/Base/Regex.vo theories/Base/Regex.glob theories/Base/Regex.v.beautified theories/Base/Regex.required_vo: theories/Base/Regex.v theories/Base/Prelude.vo
+theories/Base/Regex.vio: theories/Base/Regex.v theories/Base/Prelude.vio
+theories/Base/Regex.vos theories/Base/Regex.vok theories/Base/Regex.required_vos: theories/Base/Regex.v theories/Base/Prelude.vos
+theories/Valid/Gate.vo theories/Valid/Gate.glob theories/Valid/Gate.v.beautified theories/Valid/Gate.required_vo: theories/Valid/Gate.v theories/Base/Prelude.vo theories/Base/Regex.vo
+theories/Valid/Gate.vio: theories/Valid/Gate.v theories/Base/Prelude.vio theories/Base/Regex.vio
+theories/Valid/Gate.vos theories/Valid/Gate.vok theories/Valid/Gate.required_vos: theories/Valid/Gate.v theories/Base/Prelude.vos theories/Base/Regex.vos
+theories/Valid/Gate_proofs.vo theories/Valid/Gate_proofs.glob theories/Valid/Gate_proofs.v.beautified theories/Valid/Gate_proofs.required_vo: theories/Valid/Gate_proofs.v theories/Base/Prelude.vo theories/Base/Regex.vo theories/Valid/Gate.vo
+theories/Valid/Gate_proofs.vio: theories/Valid/Gate_proofs.v theories/Base/Prelude.vio theories/Base/Regex.vio theories/Valid/Gate.vio
+theories/Valid/Gate_proofs.vos theories/Valid/Gate_proofs.vok theories/Valid/Gate_proofs.required_vos: theories/Valid/Gate_proofs.v theories/Base/Prelude.vos theories/Base/Regex.vos theories/Valid/Gate.vos
 theories/Event/Hash.vo theories/Event/Hash.glob theories/Event/Hash.v.beautified theories/Event/Hash.required_vo: theories/Event/Hash.v theories/Base/Prelude.vo theories/Base/Bytes.vo
 theories/Event/Hash.vio: theories/Event/Hash.v theories/Base/Prelude.vio theories/Base/Bytes.vio
 theories/Event/Hash.vos theories/Event/Hash.vok theories/Event/Hash.required_vos: theories/Event/Hash.v theories/Base/Prelude.vos theories/Base/Bytes.vos
@@ -76,6 +85,9 @@ theories/Generated/C01_gen.vos theories/Generated/C01_gen.vok theories/Generated
 theories/Props/C01.vo theories/Props/C01.glob theories/Props/C01.v.beautified theories/Props/C01.required_vo: theories/Props/C01.v theories/Base/Prelude.vo theories/Base/Bytes.vo theories/Event/Hash.vo theories/Event/Hash_proofs.vo theories/Generated/C01_gen.vo
 theories/Props/C01.vio: theories/Props/C01.v theories/Base/Prelude.vio theories/Base/Bytes.vio theories/Event/Hash.vio theories/Event/Hash_proofs.vio theories/Generated/C01_gen.vio
 theories/Props/C01.vos theories/Props/C01.vok theories/Props/C01.required_vos: theories/Props/C01.v theories/Base/Prelude.vos theories/Base/Bytes.vos theories/Event/Hash.vos theories/Event/Hash_proofs.vos theories/Generated/C01_gen.vos
+theories/Props/C03.vo theories/Props/C03.glob theories/Props/C03.v.beautified theories/Props/C03.required_vo: theories/Props/C03.v theories/Base/Prelude.vo theories/Base/Regex.vo theories/Valid/Gate.vo theories/Valid/Gate_proofs.vo
+theories/Props/C03.vio: theories/Props/C03.v theories/Base/Prelude.vio theories/Base/Regex.vio theories/Valid/Gate.vio theories/Valid/Gate_proofs.vio
+theories/Props/C03.vos theories/Props/C03.vok theories/Props/C03.required_vos: theories/Props/C03.v theories/Base/Prelude.vos theories/Base/Regex.vos theories/Valid/Gate.vos theories/Valid/Gate_proofs.vos
 theories/Props/C04.vo theories/Props/C04.glob theories/Props/C04.v.beautified theories/Props/C04.required_vo: theories/Props/C04.v theories/Base/Prelude.vo theories/Base/Bytes.vo theories/Event/Merge.vo theories/Event/Hash.vo theories/Event/Hash_proofs.vo theories/Event/Merge_proofs.vo
 theories/Props/C04.vio: theories/Props/C04.v theories/Base/Prelude.vio theories/Base/Bytes.vio theories/Event/Merge.vio theories/Event/Hash.vio theories/Event/Hash_proofs.vio theories/Event/Merge_proofs.vio
 theories/Props/C04.vos theories/Props/C04.vok theories/Props/C04.required_vos: theories/Props/C04.v theories/Base/Prelude.vos theories/Base/Bytes.vos theories/Event/Merge.vos theories/Event/Hash.vos theories/Event/Hash_proofs.vos theories/Event/Merge_proofs.vos
